@@ -112,8 +112,8 @@ def run(ctx: core.Ctx):
     T = core.tables()
     rng = ctx.rng
     thorough = ctx.tier == "thorough"
-    dis = l3_scripted(ctx, T, rng, 3000 if thorough else 300)
-    n = 4000 if thorough else 300
+    dis = l3_scripted(ctx, T, rng, 20000 if thorough else 300)
+    n = 30000 if thorough else 300
     jobs = []
     for i in range(n):
         spec = gen.conn_callbacks(rng)
